@@ -436,6 +436,10 @@ def run(ctx) -> None:
             for a_ in n.args:
                 if isinstance(a_, ast.Dict):
                     entries.update({const_str(k): unparse(v) for k, v in zip(a_.keys, a_.values) if k is not None and const_str(k)})
+    if isinstance(envd, ast.Dict) and any(k is None and unparse(v) == "os.environ" for k, v in zip(envd.keys, envd.values)):
+        # `{**os.environ, 'NAME': value}`: later entries win, the splat of the process environment comes first
+        base_ok = envd.keys[0] is None and unparse(envd.values[0]) == "os.environ" and all(k is not None for k in envd.keys[1:])
+        entries.update({const_str(k): unparse(v) for k, v in zip(envd.keys, envd.values) if k is not None and const_str(k)})
     ok = base_ok and entries.get("BUMPVER_OLD_VERSION") == hr.params[1] and entries.get("BUMPVER_NEW_VERSION") == hr.params[2]
     ctx.check("R6", ok, "hooks.run: env = os.environ + BUMPVER_OLD_VERSION=old_version, BUMPVER_NEW_VERSION=new_version",
               "hooks.run: hook environment does not carry the old/new version under the documented names", unparse(envd) if envd is not None else "", loc=hr.loc())
@@ -564,7 +568,10 @@ def run(ctx) -> None:
             else:
                 # fetch: guarded by the truthiness of get_remote() itself
                 n_remote += 1
-                truthy = any("get_remote()" in a and r.implies(BF.var(a)) for a in r.atoms)
+                bound = {t_.id for st_ in walk_no_nested(fn_.node) if isinstance(st_, ast.Assign) and "get_remote()" in unparse(st_.value)
+                         for t_ in st_.targets if isinstance(t_, ast.Name)}
+                bound = {b_ for b_ in bound if sum(1 for x_ in ast.walk(fn_.node) if isinstance(x_, ast.Name) and isinstance(x_.ctx, ast.Store) and x_.id == b_) == 1}
+                truthy = any(("get_remote()" in a or a in bound) and r.implies(BF.var(a)) for a in r.atoms)
             ctx.check("R9", truthy, f"{fq_} L{s_.node.lineno}: runs only with a non-empty remote",
                       f"{fq_}: the {s_.detail.get('cmd')} command can run with an empty remote",
                       f"the site is reached when {r.drop_unused().to_dnf()} although get_remote() can be None" + (f" or an empty string (`{unparse(maybe_empty[0].ast)}`)" if maybe_empty else "") + ": "
@@ -576,10 +583,93 @@ def run(ctx) -> None:
     configured_message_rule(ctx, "R10")
 
 
+def get_remote_eval(ctx, rule: str) -> bool:
+    """VCSAPI.get_remote evaluated with an abstract VCS: for git the remote of the first branch marked current (when it
+    tracks one), otherwise the stripped remote listing, None when that is empty or any command fails - never ''.  Returns
+    False when the function is outside what the evaluator handles (the structural rule decides then)."""
+    import itertools
+    from sa.model import Abstract, CannotFold, EvalError, Raised
+    prog = ctx.prog
+    fn = prog.function("vcs.VCSAPI.get_remote")
+    ctx.visit(fn.fq)
+
+    class M(Abstract):
+        def __init__(self, cur: T.Optional[str], remote: T.Optional[str]):
+            self.d = {"is_current": cur, "remote": remote, "local": "main", "refname": "main"}
+
+        def groupdict(self) -> T.Dict[str, T.Optional[str]]:
+            return dict(self.d)
+
+        def group(self, *names: str) -> T.Any:
+            return self.d[names[0]] if len(names) == 1 else tuple(self.d[n_] for n_ in names)
+
+        def __getitem__(self, k: str) -> T.Optional[str]:
+            return self.d[k]
+
+    class Me(Abstract):
+        def __init__(self, name: str):
+            self.name = name
+    listings = [[], [(None, "origin")], [(None, "origin"), ("*", "upstream")], [("*", None), (None, "origin")], [("*", "upstream"), ("*", "other")]]
+    remotes = ["", "origin\n", "  \n", "origin\nupstream\n"]
+    wrong: T.List[str] = []
+    n = 0
+    try:
+        for name, listing, out, fail in itertools.product(("git", "hg"), listings, remotes, (None, "ls_branches", "show_remotes")):
+            asked: T.List[str] = []
+
+            def run(f: T.Any, node: ast.Call, fail: T.Optional[str] = fail, out: str = out, asked: T.List[str] = asked) -> str:
+                cmd = f(node.args[0])
+                asked.append(cmd)
+                if cmd == fail:
+                    raise Raised("CalledProcessError", ("SubprocessError",))
+                if cmd == "ls_branches":
+                    return "<branch listing>"
+                if cmd == "show_remotes":
+                    return out
+                raise CannotFold(f"get_remote runs `{cmd}`")
+
+            def finditer(f: T.Any, node: ast.Call, listing: T.List[T.Tuple[T.Optional[str], T.Optional[str]]] = listing) -> T.List[M]:
+                if f(node.args[0]) != "<branch listing>":
+                    raise CannotFold("BRANCH_RE is applied to something else than the branch listing")
+                return [M(c_, r_) for c_, r_ in listing]
+            env = {fn.params[0]: Me(name), "__strict__": True, "__stubs__": {fn.params[0]: run, "BRANCH_RE.finditer": finditer}}
+            try:
+                got, _ys = prog.run_body(fn, env)
+            except Raised as ex:
+                got = f"raises {ex.name}"
+            except EvalError as ex:
+                got = f"raises: {ex}"
+            listed = out.strip() or None
+            cur = [r_ for c_, r_ in listing if c_] if name == "git" else []
+            if name == "git" and fail == "ls_branches":
+                want = [None]
+            elif cur and cur[0] is not None:
+                want = [cur[0]]
+            elif fail == "show_remotes":
+                want = [None]
+            elif cur:
+                want = [None, listed]          # the current branch tracks nothing: None today; the listing would do as well
+            else:
+                want = [listed]
+            n += 1
+            if got not in want and len(wrong) < 4:
+                wrong.append(f"{name}, branches {listing}, remotes {out!r}, failing command {fail}: get_remote() -> {got!r}, expected {want[0]!r}")
+    except (CannotFold, TypeError, AttributeError, KeyError, ValueError, IndexError) as ex:
+        ctx.observe(f"vcs.VCSAPI.get_remote not evaluated ({type(ex).__name__}: {str(ex)[:80]})")
+        return False
+    ctx.check(rule, not wrong, f"get_remote: tracked remote of the current branch, else the remote listing, None when empty or failing; never '' ({n} cases evaluated)",
+              "vcs.VCSAPI.get_remote: the remote that fetch and push use is wrong",
+              "; ".join(wrong[:2]) + ": with a wrong or empty remote the fetch/push steps are skipped or run against another remote", loc=fn.loc(),
+              witness={"git branch": "* feature -> upstream/feature"})
+    return True
+
+
 def remote_lookup_rule(ctx, rule: str):
     """get_remote: never an empty string for a command, the tracked remote of the current branch for git, the remote listing
     as the fallback - for git too.  Returns the return nodes that may yield an empty string."""
     prog, cfgs, effects = ctx.prog, ctx.cfgs, ctx.effects
+    if get_remote_eval(ctx, rule):
+        return []
     # `{remote}` sites: the value comes from get_remote(); the command may only run when it is a non-empty string.
     # Either the site is guarded by the truthiness of the value, or get_remote never returns an empty string.
     gr = prog.function("vcs.VCSAPI.get_remote")
